@@ -38,6 +38,12 @@ PROPS = {
         "shards": {"quick": 8, "thorough": 16}, "timeout": {"quick": 600, "thorough": 10000},
         "floors": {"quick": {"loader_calls": 20000, "documents_loaded": 1000}, "thorough": {"loader_calls": 1000000}},
     },
+    "C19": {
+        "test": "TestVerif_C19", "level": "exploration",
+        "rule": "requests = {PUT, POST, GET, DELETE, PATCH, HEAD, OPTIONS} x {well-formed slice documents with every unit string (bps/Kbps/Mbps/Gbps/absent/unknown) and 64-bit boundary rates and bursts, syntactically malformed JSON, wrongly typed JSON, unreadable body} served by calling the handler with a counting ResponseWriter and through the real mux over HTTP, on both datapaths (BESS sliceMeter commands, UP4 slice_tc_meter cell at the harness servers); big-integer unit arithmetic; distinct = <datapath, method, document class, via HTTP?>",
+        "shards": {"quick": 8, "thorough": 16}, "timeout": {"quick": 600, "thorough": 10000},
+        "floors": {"quick": {"http_requests": 5000, "slice_meter_commands_seen": 1000}, "thorough": {"http_requests": 250000}},
+    },
     "C10": {
         "test": "TestVerif_C10", "level": "exploration",
         "rule": "scenario = {0..n associations (some >100)} x {0-3 sessions} x trigger per association {release, silence->read timeout(+heartbeat failure), unanswered heartbeats, live} x requests in flight x datapath reply delay x PFCPIface.Stop() at a drawn offset (+-3.5 ms around the coinciding triggers), fresh agent per scenario, plus a 'refresh' family (association ends without Stop, same address:port associates afresh, bystander association checked); distinct = distinct interleaving signatures (datapath, heartbeat on/off, delay, stop offset in ms, multiset of per-association <trigger, order relative to Stop, release answered?, sessions>)",
